@@ -46,6 +46,8 @@ impl ProgSpec {
         match self {
             ProgSpec::Stmts(v) => json!({"stmts": v}),
             ProgSpec::Source(s) => json!({"source": s}),
+            // a pool beyond the u16 count cannot be written by any encoder: such a model is recorded by its construction
+            ProgSpec::Model(m) if m.consts.len() > 65_535 => json!({"boundary_pool": m.consts.len()}),
             ProgSpec::Model(m) => json!({"model_hex": to_hex(&foreign::encode(m))}),
             ProgSpec::Image(b) => json!({"image_hex": to_hex(b)}),
         }
@@ -56,6 +58,9 @@ impl ProgSpec {
         }
         if let Some(s) = v.get("source").and_then(|x| x.as_str()) {
             return Some(ProgSpec::Source(s.to_string()));
+        }
+        if let Some(n) = v.get("boundary_pool").and_then(|x| x.as_u64()) {
+            return Some(ProgSpec::Model(foreign::boundary_pool_model(n as usize)));
         }
         if let Some(h) = v.get("model_hex").and_then(|x| x.as_str()) {
             let bytes = from_hex(h)?;
